@@ -143,7 +143,7 @@ pub fn run(_args: &[String], out: &mut dyn Write) -> i32 {
         }
         match r {
             Ok((res, qs, rates)) => {
-                writeln!(out, "{} tree=({}) pdb={} result={} qs=({}) rates=({})", id, tree, pdb, res, qs, rates).unwrap()
+                writeln!(out, "{} tree=({}) pdb={} db={} result={} qs=({}) rates=({})", id, tree, pdb, db, res, qs, rates).unwrap()
             }
             Err(msg) => {
                 writeln!(out, "{} tree=({}) pdb={} result=(panic {}) qs=() rates=()", id, tree, pdb, enc(&msg)).unwrap()
